@@ -221,6 +221,11 @@ pub fn gen_op(rng: &mut Rng, js: &JournaledState, w: &World, open: usize, allow_
             let v = match rng.below(4) { 0 => U256::ZERO, 1 => cb, 2 => U256::from(rng.below(5)).min(cb), _ => cb >> 1 };
             // has_storage is answered truthfully (sometimes pessimistically `true`)
             let hs = has_storage_truth(w, a) || rng.chance(1, 10);
+            // contract of create_account_checkpoint inside revm: creator <> target, and a target that
+            // is already marked created collides (it has nonce 1 from Spurious Dragon on; before,
+            // CREATE addresses are never reused)
+            let reused = js.state.get(&addr(a)).map(|x| x.is_created() && x.info.nonce == 0 && x.info.code_hash == KECCAK_EMPTY).unwrap_or(false) && !hs;
+            if c == a || reused { return Hop::Load(any(rng)); }
             Hop::Create(c, a, hs, v)
         }
         11 | 12 => Hop::Sload(pick_loaded(rng), key(rng)),
